@@ -510,6 +510,11 @@ func sessionChargingReservation(
 		var finalUnitIndication models.FinalUnitIndication
 		creditControl := false
 
+		if unitUsage.RequestedUnit == nil {
+			// usage reported without asking for more units
+			unitUsage.RequestedUnit = &models.RequestedUnit{}
+		}
+
 		rg := unitUsage.RatingGroup
 		if !ue.FindRatingGroup(rg) {
 			ue.RatingGroups = append(ue.RatingGroups, rg)
